@@ -187,3 +187,172 @@ Section Norm.
     - apply join_last_nonempty. apply good_part_spec in Nm as [K _]. destruct name; [discriminate | discriminate].
   Qed.
 End Norm.
+
+(* ---- the path argument of an archive member:  <archive path> "!/" <member name>, for ANY member name *)
+Definition BANG : N := 33.
+Definition kept (m : str) : list str := filter keep_part (split_slash m).
+
+Lemma split_join_app parts m : parts <> [] -> forallb good_part parts = true ->
+  split_slash_aux [] (join_slash parts ++ SLASH :: m) = parts ++ split_slash_aux [] m.
+Proof.
+  induction parts as [|x ps IH]; [congruence|]. intros _ H. simpl in H.
+  apply andb_true_iff in H as [H1 H2]. apply good_part_spec in H1 as [_ H1].
+  destruct ps as [|y ps'].
+  - cbn [join_slash]. rewrite split_aux_app by exact H1. reflexivity.
+  - change (join_slash (x :: y :: ps')) with (x ++ SLASH :: join_slash (y :: ps')).
+    rewrite <- app_assoc. cbn [app]. rewrite split_aux_app by exact H1. cbn [rev app].
+    rewrite IH; [reflexivity | discriminate | exact H2].
+Qed.
+
+(* parse of root ++ rel where rel is empty or starts with a character other than '/' *)
+Lemma parse_root_rel root rel : good_root root = true ->
+  (rel = [] \/ exists c r, rel = c :: r /\ N.eqb c SLASH = false) ->
+  parse (root ++ rel) = {| proot := root; ptail := filter keep_part (split_slash rel) |}.
+Proof.
+  intros R H. unfold parse. destruct H as [->|[c [r [-> S]]]].
+  - rewrite app_nil_r.
+    destruct root as [|a [|b [|d root]]]; simpl in R; try discriminate.
+    + reflexivity.
+    + apply N.eqb_eq in R; subst a. reflexivity.
+    + apply andb_true_iff in R as [R1 R2]. apply N.eqb_eq in R1, R2; subst a b. reflexivity.
+  - destruct root as [|a [|b [|d root]]]; simpl in R; try discriminate.
+    + cbn [app]. rewrite (splitroot_rel c r S). reflexivity.
+    + apply N.eqb_eq in R; subst a. cbn [app]. rewrite (splitroot_abs c r S). reflexivity.
+    + apply andb_true_iff in R as [R1 R2]. apply N.eqb_eq in R1, R2; subst a b. cbn [app].
+      rewrite (splitroot_abs2 c r S). reflexivity.
+Qed.
+
+Lemma filter_app_good parts l : forallb good_part parts = true ->
+  filter keep_part (parts ++ l) = parts ++ filter keep_part l.
+Proof. intro H. rewrite filter_app. rewrite filter_good by exact H. reflexivity. Qed.
+
+Lemma good_bang aname : good_part aname = true -> good_part (aname ++ [BANG]) = true.
+Proof.
+  intro H. apply good_part_spec in H as [K S]. unfold good_part. apply andb_true_iff. split.
+  - destruct aname as [|c [|d r]]; [discriminate | reflexivity | reflexivity].
+  - unfold no_slash in *. rewrite forallb_app, S. reflexivity.
+Qed.
+
+Lemma parse_member root dirs aname m :
+  good_root root = true -> forallb good_part dirs = true -> good_part aname = true ->
+  parse (root ++ join_slash (dirs ++ [aname ++ [BANG]]) ++ SLASH :: m)
+  = {| proot := root; ptail := dirs ++ [aname ++ [BANG]] ++ kept m |}.
+Proof.
+  intros R D A.
+  assert (G : forallb good_part (dirs ++ [aname ++ [BANG]]) = true).
+  { rewrite forallb_app, D. simpl. rewrite good_bang by exact A. reflexivity. }
+  assert (NE : dirs ++ [aname ++ [BANG]] <> []) by (destruct dirs; discriminate).
+  rewrite parse_root_rel; [|exact R|].
+  - unfold split_slash. rewrite split_join_app by assumption. rewrite filter_app_good by exact G.
+    rewrite <- app_assoc. reflexivity.
+  - right. destruct (join_head _ G) as [E|[c [r [E S]]]].
+    + exfalso. destruct dirs as [|x ds]; simpl in E.
+      * destruct aname; discriminate.
+      * destruct (ds ++ [aname ++ [BANG]]) eqn:K; [destruct ds; discriminate|].
+        simpl in G. apply andb_true_iff in G as [Gx _]. apply good_part_spec in Gx as [Kx _]. destruct x; discriminate.
+    + exists c, (r ++ SLASH :: m). rewrite E. split; [reflexivity | exact S].
+Qed.
+
+(* every kept component of any string is a good part *)
+Lemma forallb_rev' {X} (p : X -> bool) l : forallb p (rev l) = forallb p l.
+Proof.
+  induction l as [|x l IH]; simpl; [reflexivity|]. rewrite forallb_app, IH. simpl. rewrite andb_true_r, andb_comm. reflexivity.
+Qed.
+Lemma split_aux_no_slash x : forall cur, no_slash cur = true -> forallb no_slash (split_slash_aux cur x) = true.
+Proof.
+  induction x as [|c x IH]; intros cur H; simpl.
+  - unfold no_slash in *. rewrite forallb_rev'. rewrite H. reflexivity.
+  - destruct (N.eqb c SLASH) eqn:E.
+    + simpl. unfold no_slash at 1. rewrite forallb_rev'. unfold no_slash in H. rewrite H. apply IH. reflexivity.
+    + apply IH. unfold no_slash in *. simpl. rewrite E, H. reflexivity.
+Qed.
+
+Lemma kept_good m : forallb good_part (kept m) = true.
+Proof.
+  unfold kept, split_slash. pose proof (split_aux_no_slash m [] eq_refl) as H.
+  induction (split_slash_aux [] m) as [|p ps IH]; [reflexivity|]. simpl in H. apply andb_true_iff in H as [Hp Hs].
+  simpl. destruct (keep_part p) eqn:K; [|apply IH; exact Hs].
+  simpl. unfold good_part. rewrite K, Hp. simpl. apply IH. exact Hs.
+Qed.
+
+Lemma join_last_app dirs a b : join_slash (dirs ++ [a ++ b]) = join_slash (dirs ++ [a]) ++ b.
+Proof.
+  induction dirs as [|x ds IH]; [reflexivity|]. cbn [app].
+  destruct (ds ++ [a ++ b]) as [|y l] eqn:E1; [destruct ds; discriminate|].
+  destruct (ds ++ [a]) as [|y' l'] eqn:E2; [destruct ds; discriminate|].
+  change (join_slash (x :: y :: l)) with (x ++ SLASH :: join_slash (y :: l)).
+  change (join_slash (x :: y' :: l')) with (x ++ SLASH :: join_slash (y' :: l')).
+  rewrite IH. rewrite <- app_assoc. reflexivity.
+Qed.
+
+Lemma join_app2 P1 : forall l1, P1 <> [] -> l1 <> [] -> join_slash (P1 ++ l1) = join_slash P1 ++ SLASH :: join_slash l1.
+Proof.
+  induction P1 as [|x ps IHp]; intros l1 H1 Hl; [congruence|]. destruct ps as [|y ps'].
+  - destruct l1; [congruence | reflexivity].
+  - cbn [app]. change (join_slash (x :: y :: ps' ++ l1)) with (x ++ SLASH :: join_slash ((y :: ps') ++ l1)).
+    rewrite IHp by (discriminate || exact Hl).
+    change (join_slash (x :: y :: ps')) with (x ++ SLASH :: join_slash (y :: ps')). rewrite <- app_assoc. reflexivity.
+Qed.
+
+Lemma match_nonempty (x : str) : x <> [] -> match x with [] => [PDOT] | c :: r => c :: r end = x.
+Proof. destruct x; [congruence | reflexivity]. Qed.
+
+Section Member.
+  Variable fs_exists : str -> option bool.
+  Variable fs_resolve : str -> str.
+
+  Lemma populate_parse guard x y : parse x = parse y ->
+    populate_from_path fs_exists fs_resolve guard file_meta_default (Some x)
+    = populate_from_path fs_exists fs_resolve guard file_meta_default (Some y).
+  Proof. intro H. unfold populate_from_path. rewrite H. reflexivity. Qed.
+
+  (* archive path = root ++ dirs/aname (normal form), member name m arbitrary with at least one kept component *)
+  Lemma populate_member guard root dirs aname m qs n m' :
+    good_root root = true -> forallb good_part dirs = true -> good_part aname = true ->
+    kept m = qs ++ [n] ->
+    populate_from_path fs_exists fs_resolve guard file_meta_default
+      (Some ((root ++ join_slash (dirs ++ [aname])) ++ [BANG; SLASH] ++ m)) = Ok m' ->
+    filename m' = Some n /\ file_extension m' = Some (suffix_of_name n)
+    /\ file_path m' = Some (shown fs_exists fs_resolve ((root ++ join_slash (dirs ++ [aname])) ++ BANG :: SLASH :: join_slash (qs ++ [n])))
+    /\ folder_path m' = Some (shown fs_exists fs_resolve
+         (match qs with [] => (root ++ join_slash (dirs ++ [aname])) ++ [BANG]
+                      | _ => (root ++ join_slash (dirs ++ [aname])) ++ BANG :: SLASH :: join_slash qs end)).
+  Proof.
+    intros R D A K.
+    assert (E : (root ++ join_slash (dirs ++ [aname])) ++ [BANG; SLASH] ++ m
+                = root ++ join_slash (dirs ++ [aname ++ [BANG]]) ++ SLASH :: m).
+    { rewrite join_last_app. rewrite <- !app_assoc. reflexivity. }
+    rewrite E. clear E.
+    pose proof (kept_good m) as KG. rewrite K in KG. rewrite forallb_app in KG. apply andb_true_iff in KG as [Gq Gn].
+    simpl in Gn. rewrite andb_true_r in Gn.
+    set (DD := dirs ++ [aname ++ [BANG]] ++ qs).
+    assert (GD : forallb good_part DD = true).
+    { unfold DD. rewrite forallb_app, D. cbn [app forallb]. rewrite good_bang by exact A. rewrite Gq. reflexivity. }
+    assert (P : parse (root ++ join_slash (dirs ++ [aname ++ [BANG]]) ++ SLASH :: m) = parse (root ++ join_slash (DD ++ [n]))).
+    { rewrite parse_member by assumption. rewrite parse_normal; [|exact R|].
+      - unfold DD. rewrite K. rewrite <- !app_assoc. reflexivity.
+      - rewrite forallb_app, GD. simpl. rewrite Gn. reflexivity. }
+    intro H0. pose proof (populate_parse guard _ _ P) as PP.
+    assert (H : populate_from_path fs_exists fs_resolve guard file_meta_default (Some (root ++ join_slash (DD ++ [n]))) = Ok m').
+    { exact (eq_trans (eq_sym PP) H0). }
+    destruct (populate_normal fs_exists fs_resolve guard root DD n m' R GD Gn H) as [F1 [F2 [F3 F4]]].
+    split; [exact F1|]. split; [exact F2|].
+    assert (J : forall l, l <> [] -> root ++ join_slash (dirs ++ [aname ++ [BANG]] ++ l)
+                = (root ++ join_slash (dirs ++ [aname])) ++ BANG :: SLASH :: join_slash l).
+    { intros l NE. rewrite app_assoc.
+      assert (G2 : forallb good_part (dirs ++ [aname ++ [BANG]]) = true)
+        by (rewrite forallb_app, D; simpl; rewrite good_bang by exact A; reflexivity).
+      rewrite join_app2; [|destruct dirs; discriminate | exact NE].
+      rewrite join_last_app. rewrite <- !app_assoc. reflexivity. }
+    assert (LA : forall l, DD ++ l = dirs ++ [aname ++ [BANG]] ++ qs ++ l).
+    { intro l. unfold DD. rewrite <- !app_assoc. reflexivity. }
+    split.
+    - rewrite F3. f_equal. f_equal. rewrite LA. rewrite <- (J (qs ++ [n])) by (destruct qs; discriminate). reflexivity.
+    - rewrite F4. f_equal. f_equal. destruct qs as [|q qs'].
+      + unfold DD. rewrite app_nil_r. rewrite join_last_app. rewrite app_assoc.
+        apply match_nonempty. intro Z. apply app_eq_nil in Z as [_ Z]. discriminate.
+      + assert (E4 : root ++ join_slash DD = (root ++ join_slash (dirs ++ [aname])) ++ BANG :: SLASH :: join_slash (q :: qs')).
+        { rewrite <- (J (q :: qs')) by discriminate. reflexivity. }
+        rewrite E4. apply match_nonempty. intro Z. apply app_eq_nil in Z as [_ Z]. discriminate.
+  Qed.
+End Member.
